@@ -42,7 +42,7 @@ P = {
             'since genesis; sometimes a min deposit in two denominations; the three gov burn switches are on (one of them off in some '
             'histories), voting moods and a scripted proposal make deposits end vetoed / without quorum / dropped below the minimum, so that '
             'deposits of several denominations are burned = redirected to the community pool, also denominations new to the pool —, vesting conversion / clawback, liquidate / redeem, DAO fund / transfer, ERC20 '
-            'convert both ways, authz grant / exec, bank multi-send) and really signed Ethereum transactions (transfers, script-contract call trees with '
+            'convert both ways, authz grant / exec, bank multi-send) and really signed Ethereum transactions (transfers, script-contract call trees — rarely ending in SELFDESTRUCT of the script contract, whose delegations and unbonding entries stay behind — with '
             'nested calls, reverts and calls into the staking / distribution precompiles, direct precompile calls), block time steps of '
             'seconds to days (coinomics minting), absent validators (downtime slashing), double-sign evidence, occasionally the v1.7.5 '
             'upgrade; PARAMETER OPERATIONS inside the blocks ({"k":"param"}: the module\'s current parameters with the listed keys '
